@@ -168,9 +168,9 @@ func (r *c33Runner) Step(t []string, o *Oracle) string {
 		}
 		r.rnode.SetValidators(int64(ver), ids)
 		if ver > r.valVer {
-			// an empty list is stored but (Clear fires no onUpdate) does not revoke roles: boundary,
-			// an empty validator set cannot occur on a running chain; the oracle is suspended
-			r.valVer, r.valSet, r.valKnown = ver, map[uint64]bool{}, len(set) > 0
+			// known finding (dedicated keys below): an EMPTY list is stored but revokes no role
+			// (PeerIDSet.Clear fires no onUpdate, Merge only when an id was added)
+			r.valVer, r.valSet, r.valKnown = ver, map[uint64]bool{}, true
 			for _, v := range set {
 				r.valSet[v] = true
 			}
@@ -179,6 +179,11 @@ func (r *c33Runner) Step(t []string, o *Oracle) string {
 		// property: exactly the connected peers of the current validator set carry the root role
 		for i, id := range r.peerIDs {
 			has := r.rnode.PeerRole(i)&2 == 2
+			if r.valKnown && len(r.valSet) == 0 {
+				o.Check(!has, "c33-empty-validator-set-keeps-root-role",
+					"validator set (version %d) is empty, connected peer %d still has the root role", r.valVer, id)
+				continue
+			}
 			o.Check(!r.valKnown || has == r.valSet[id], "c33-root-role-out-of-sync-with-validator-set",
 				"peer %d: root role %v, in current validator set %v", id, has, r.valSet[id])
 		}
@@ -215,7 +220,10 @@ func (r *c33Runner) Step(t []string, o *Oracle) string {
 			goRole = -1 // the role the node itself maintains (SetRole history)
 		}
 		res, relayed := r.rnode.OnPacketFrom(int(idx), goRole, c33ID(src), byte(dest), byte(ttl), hash, rel == 1)
-		if r.keepRole && r.valKnown && res == "deliver" && dest == 0 && ttl == 0 && r.peerIDs[idx] == src {
+		if r.keepRole && r.valKnown && len(r.valSet) == 0 && res == "deliver" && dest == 0 && ttl == 0 && r.peerIDs[idx] == src {
+			o.Check(false, "c33-broadcast-accepted-after-validator-set-emptied",
+				"originator broadcast of peer %d delivered although the validator set (version %d) is empty", src, r.valVer)
+		} else if r.keepRole && r.valKnown && res == "deliver" && dest == 0 && ttl == 0 && r.peerIDs[idx] == src {
 			o.Check(r.valSet[src], "c33-broadcast-origin-not-in-validator-set",
 				"originator broadcast of peer %d delivered, current validator set (version %d) does not contain it", src, r.valVer)
 			o.Count("origin-broadcast-by-current-validator")
